@@ -77,6 +77,7 @@ Failed(i) ==
     ELSE LET pre == ToW(Log[i - 1].st) post == ToW(Log[i].st) ev == Log[i].ev IN
          OpClauses(pre, ev, post, Log[i].st.grid)
          \cup C("C19.Bounded", Bounded(post.P.z, TRUE) /\ Bounded(post.Q.z, FALSE))
+         \cup C("C19.ValuesGivenToCallbacksStayPut", Log[i].st.keptok)   \* the lists handed to callbacks earlier still hold their values
          \cup C("C19.TimeSeriesKeepsMostRecent",
                 Log[i].st.grid => \A j \in DOMAIN post.P.z.tser :
                                      post.P.z.tser[j] = (post.P.z.tcount - Len(post.P.z.tser) + j) * post.P.iv)
